@@ -344,24 +344,38 @@ func vfFmtPairs(e [][2][]byte) string {
 	return "[" + strings.Join(s, " ") + "]"
 }
 
-// vfOpen: the repository's constructor requests a 64 MiB write buffer that goleveldb allocates anew for every
-// transaction; most cases wrap a handle opened with a small buffer in the same LevelDB type (all bucket and
-// transaction code is the repository's); every 6th open goes through CreateDB/OpenDB itself.
+// vfOpen opens the store through the repository's own constructor. That constructor requests a 64 MiB write
+// buffer, which goleveldb allocates anew for every transaction; for speed most opens then replace the inner
+// goleveldb handle by one opened with a small buffer (same directory, same *LevelDB value, so every field the
+// constructor initialises is kept and all bucket/transaction code is the repository's); every 6th open keeps the
+// original handle.
 var vfOpens int
 
 func vfOpen(path string, create bool) (db.DB, error) {
 	vfOpens++
-	if vfOpens%6 == 0 {
-		if create {
-			return CreateDB(path)
-		}
-		return OpenDB(path)
+	var d db.DB
+	var err error
+	if create {
+		d, err = CreateDB(path)
+	} else {
+		d, err = OpenDB(path)
 	}
-	h, err := leveldb.OpenFile(path, &opt.Options{WriteBuffer: 1 << 20, BlockCacheCapacity: 1 << 20, ErrorIfMissing: !create, ErrorIfExist: create})
+	if err != nil || vfOpens%6 == 0 {
+		return d, err
+	}
+	l, ok := d.(*LevelDB)
+	if !ok || l.LDb == nil {
+		return d, nil
+	}
+	if err := l.LDb.Close(); err != nil {
+		return nil, err
+	}
+	h, err := leveldb.OpenFile(path, &opt.Options{WriteBuffer: 1 << 20, BlockCacheCapacity: 1 << 20, ErrorIfMissing: true})
 	if err != nil {
 		return nil, err
 	}
-	return &LevelDB{LDb: h}, nil
+	l.LDb = h
+	return l, nil
 }
 
 func vfC19Run(p vfProg, c *vlib.Ctx) *vlib.Failure {
